@@ -13,7 +13,7 @@ import "verif/sim/core"
 func init() {
 	RegisterBaseExtra(&BaseExtra{
 		Name:    "rounds",
-		Kinds:   []string{"c11.commit", "c11.commit", "c11.commit", "c11.commit", "c11.commit", "c11.commit", "submitmsg", "c11.fundrt"},
+		Kinds:   []string{"c11.commit", "c11.commit", "c11.commit", "c11.commit", "c11.commit", "c11.commit", "submitmsg", "c11.fundrt", "c11.evidence"},
 		Tune:    func(r *core.Rand, k *ChainKnobs) { c11Runtime(r, k, false) },
 		ArgGen:  c11ArgGen,
 		OwnRand: true,
